@@ -42,7 +42,8 @@ REQUIRED = ["cases", "emitted_frames_compared", "rewrites_checked",
             "frames_with_ports_only_inside_their_payload", "table_misses",
             "released_through_a_buffer_id", "released_by_a_flow_mod",
             "udp_checksums_that_come_out_as_zero_after_a_rewrite",
-            "ports_plugged_in_while_running"]
+            "ports_plugged_in_while_running",
+            "ports_plugged_in_administratively_down"]
 TIMEOUT = {"quick": 900, "thorough": 7200}
 
 NPORTS = 5
@@ -244,10 +245,17 @@ def run_case (case, rep):
   # a port plugged in (or pulled out again) while the switch is running: it
   # takes part in FLOOD and ALL from the next frame on
   try:
-    if case.get("plug") == "add" and EXTRA_PORT not in rig.cfg:
-      rig.sw.switch.add_port(rig.sw.switch.generate_port(EXTRA_PORT))
+    if case.get("plug") in ("add", "add_down") and EXTRA_PORT not in rig.cfg:
+      phy = rig.sw.switch.generate_port(EXTRA_PORT)
+      if case["plug"] == "add_down":
+        # the port starts out administratively down (its description says so;
+        # the link itself is fine) and is enabled by the port_mod that this
+        # case's configuration calls for
+        phy.config |= OA.PC_PORT_DOWN
+        rep.count("ports_plugged_in_administratively_down")
+      rig.sw.switch.add_port(phy)
       rig.sw.take_bytes()
-      rig.cfg[EXTRA_PORT] = 0
+      rig.cfg[EXTRA_PORT] = phy.config
       for d_ in (rig.tx, rig.rx_lo, rig.rx_hi): d_[EXTRA_PORT] = [0, 0]
       rep.count("ports_plugged_in_while_running")
     elif case.get("plug") == "del" and EXTRA_PORT in rig.cfg:
@@ -626,7 +634,8 @@ def gen_case (rng):
   case = dict(frame=raw, in_port=in_port, actions=actions, cfg=cfg, via=via,
               desc=desc)
   r = rng.random()
-  if r < 0.03: case["plug"] = "add"
+  if r < 0.015: case["plug"] = "add"
+  elif r < 0.03: case["plug"] = "add_down"
   elif r < 0.05: case["plug"] = "del"
   if via in ("miss",) + BUFFERED:
     if rng.random() < 0.3: case["inject_obj"] = True
